@@ -42,7 +42,8 @@ def tyParamL : Ty → List Bytes
   | .int lo hi => intParamL lo hi
   | .flt lo hi => fltParamL lo hi
   | .enum ci vs => vs.map (strMark ++ ·) ++ (if ci then [boolKey true] else [])
-  | .arr e lo hi => (if e.isAny then [] else [tyKey e]) ++ (if lo = 0 ∧ hi = maxInt then [] else sizeParamL lo hi)
+  | .arr e lo hi => (if e.isAny ∧ ¬ (lo = 0 ∧ hi = 0) then [] else [tyKey e]) ++
+      (if lo = 0 ∧ hi = maxInt then [] else sizeParamL lo hi)
   | .var ts => ts.map tyKey
   | .tup ts sz => ts.map tyKey ++ sizeParamL (goaSize ts.length sz).1 (goaSize ts.length sz).2
   | .opt t => if t.isAny then [] else [tyKey t]
@@ -247,8 +248,7 @@ theorem tyKey_iff_O : ∀ a b : Ty, TyWF a = true → TyWF b = true → (tyKey a
       rename_i e' lo' hi'
       simp only [TyWF, Bool.and_eq_true, decide_eq_true_eq] at ha hb
       rw [append_sep (P := IsTyKey)]
-      · rw [optParam_iff (tyKey_iff_O e e' ha.1 hb.1)]
-        have hsz : ((if lo = 0 ∧ hi = maxInt then [] else sizeParamL lo hi) =
+      · have hsz : ((if lo = 0 ∧ hi = maxInt then [] else sizeParamL lo hi) =
             (if lo' = 0 ∧ hi' = maxInt then [] else sizeParamL lo' hi')) ↔ lo = lo' ∧ hi = hi' := by
           split <;> split
           · simp_all
@@ -256,7 +256,23 @@ theorem tyKey_iff_O : ∀ a b : Ty, TyWF a = true → TyWF b = true → (tyKey a
           · simp_all [sizeParamL] <;> omega
           · exact sizeParamL_inj ha.2.1 ha.2.2 hb.2.1 hb.2.2
         rw [hsz]
-        exact ⟨fun h => ⟨h.2, h.1⟩, fun h => ⟨h.2, h.1⟩⟩
+        constructor
+        · rintro ⟨h1, h2, h3⟩
+          subst h2; subst h3
+          refine ⟨⟨rfl, rfl⟩, ?_⟩
+          by_cases c : lo = 0 ∧ hi = 0
+          · simpa [c, tyKey_iff_O e e' ha.1 hb.1] using h1
+          · have q : (lo = 0 → ¬hi = 0) := fun a b => c ⟨a, b⟩
+            simp only [eq_true q, and_true] at h1
+            exact (optParam_iff (tyKey_iff_O e e' ha.1 hb.1)).mp h1
+        · rintro ⟨⟨h2, h3⟩, h1⟩
+          subst h2; subst h3
+          refine ⟨?_, rfl, rfl⟩
+          by_cases c : lo = 0 ∧ hi = 0
+          · simpa [c, tyKey_iff_O e e' ha.1 hb.1] using h1
+          · have q : (lo = 0 → ¬hi = 0) := fun a b => c ⟨a, b⟩
+            simp only [eq_true q, and_true]
+            exact (optParam_iff (tyKey_iff_O e e' ha.1 hb.1)).mpr h1
       · intro a ha'; split at ha' <;> simp at ha'; subst ha'; exact tyKey_hd e
       · intro a ha'; split at ha' <;> simp at ha'; subst ha'; exact tyKey_hd e'
       · intro s hs; split at hs
